@@ -6,6 +6,7 @@ package sim
 // pkg/controllers/provisioning/scheduling/topology*.go.
 
 import (
+	"strings"
 	"fmt"
 	"sort"
 
@@ -138,7 +139,7 @@ func CheckInterPod(all []*Placed, nss nsView, partial bool) (oracle, msg string)
 		for _, term := range requiredAffTerms(a.Pod) {
 			da := a.Domains(term.TopologyKey)
 			if len(da) == 0 {
-				return "affinity", fmt.Sprintf("pod %s has a required pod-affinity term on %s but was placed on %s, which has no such topology label", a.Pod.Name, term.TopologyKey, a.Target)
+				return "node-without-topology-label", fmt.Sprintf("pod %s has a required pod-affinity term on %s but was placed on %s, which has no such topology label (kube-scheduler requires every topology label of a required term on the node)", a.Pod.Name, term.TopologyKey, a.Target)
 			}
 			anyMatchAnywhere := false
 			for _, b := range all {
@@ -176,6 +177,9 @@ func CheckInterPod(all []*Placed, nss nsView, partial bool) (oracle, msg string)
 				continue
 			}
 			da := a.Domains(c.TopologyKey)
+			if len(da) == 0 && strings.HasPrefix(a.Target, "node/") {
+				return "node-without-topology-label", fmt.Sprintf("pod %s carries a DoNotSchedule spread constraint on %s but was placed on %s, which has no such topology label (kube-scheduler skips such nodes)", a.Pod.Name, c.TopologyKey, a.Target)
+			}
 			if len(da) != 1 {
 				return "spread", fmt.Sprintf("pod %s carries a DoNotSchedule spread constraint on %s but its domain on %s is not determined (%v)", a.Pod.Name, c.TopologyKey, a.Target, da)
 			}
@@ -196,8 +200,14 @@ func CheckInterPod(all []*Placed, nss nsView, partial bool) (oracle, msg string)
 				if !spreadNodeEligible(a.Pod, c, b.Node) {
 					continue
 				}
-				eligible[db[0]] = true
-				if podActive(b.Pod) && b.Pod.Namespace == a.Pod.Namespace && sel.Matches(labels.Set(b.Pod.Labels)) {
+				matches := podActive(b.Pod) && b.Pod.Namespace == a.Pod.Namespace && sel.Matches(labels.Set(b.Pod.Labels))
+				// R4: a domain exists for kube-scheduler through a registered Node; a NodeClaim without Node (in flight,
+				// or new in this pass) only makes a domain by the matching pods placed on it - Karpenter deliberately does
+				// not discover domains from in-flight NodeClaims
+				if b.Node.Meta == "node" || matches {
+					eligible[db[0]] = true
+				}
+				if matches {
 					counts[db[0]]++
 				}
 			}
